@@ -10,11 +10,12 @@ open AsyncFix.Generated AsyncFix.Generated.ConnEnum
 /-! ### summary of a benign inbound frame -/
 
 /-- valid inbound traffic in the sense of C12: passes the integrity check, carries the expected number,
-is no Logon / SequenceReset / Logout / ResendRequest, and – if it is a Heartbeat with a TestReqID while
-a TestRequest is outstanding – echoes the right id. -/
+is no Logon / SequenceReset / Logout, is either no ResendRequest at all or one that is ignored (for
+numbers never sent), and – if it is a Heartbeat with a TestReqID while a TestRequest is outstanding –
+echoes the right id. -/
 structure Benign (c : Conn) (m : Msg) : Prop where
   inseq : InSeq c m
-  routine : Routine m
+  kind : Routine m ∨ IgnoredResend c m
   rightId : m.mtype = mHeartbeat → ∀ tid v, c.testReqId = some tid → m.get? tTestReqID = some v →
     (pyInt v).getD 0 = tid
 
@@ -102,6 +103,21 @@ theorem recv_benign_on (sr : Msg → Bool) (env : Env) (h : Int) (c : Conn) (m :
     ((recv sr env c m).1.state = c.state ∨ (recv sr env c m).1.state = st_ACTIVE) := by
   have h8 := ho.state
   have hwm := ho.watermark
+  by_cases hi : IgnoredResend c m
+  · -- ignored ResendRequest
+    have hech : echoes c m = false := by simp [echoes, hi.1, mResendRequest, mHeartbeat]
+    rw [recv_resend_ignored sr env c m h8 hwm hb.inseq hi, hech]
+    split
+    · have := finalized_after env h c m ho [] NoDisc.nil (by simp [writes])
+      simpa using this
+    · have ho1 : On h { c with state := st_ACTIVE, wasActive := true } :=
+        ⟨(by show 8 ≤ st_ACTIVE; decide), ho.sock, ho.hb,
+          fun hq => absurd (show st_ACTIVE = st_RESENDREQ_AWAITING from hq) (by decide)⟩
+      obtain ⟨g1, g2, g3, g4, g5, g6⟩ := finalized_after env h _ m ho1
+        [.onState st_RESENDREQ_HANDLING, .onState st_ACTIVE] (by simp [NoDisc, isDisc]) (by simp [writes])
+      refine ⟨g1, g2, g3, g4, g5, Or.inr ?_⟩
+      rcases g6 with g | g <;> exact g
+  have hrt : Routine m := hb.kind.resolve_right hi
   by_cases hm : m.mtype = mHeartbeat
   · cases ht : c.testReqId with
     | none =>
@@ -136,7 +152,7 @@ theorem recv_benign_on (sr : Msg → Bool) (env : Env) (h : Int) (c : Conn) (m :
             [.write (frameOf env c (echoMsg m))] (by simp [NoDisc, isDisc])
             (by simp [writes, frameOf_mtype, echoMsg, Msg.mk'])
     · have hq' : (m.mtype == mTestRequest) = false := by simpa using hq
-      rw [recv_app sr env c m h8 hwm hb.inseq ⟨hb.routine, hq', hne⟩]
+      rw [recv_app sr env c m h8 hwm hb.inseq ⟨hrt, hq', hne⟩]
       exact finalized_after env h c m ho [.deliver m] (by simp [NoDisc, isDisc]) (by simp [writes])
 
 /-- the same on ACTIVE: stays ACTIVE -/
